@@ -149,6 +149,13 @@ THEOREM_CLASS_PROBLEMS = [
     ("a(i) = b(i)", {"a": "d", "b": "d"}),
     ("a(i) = (b(i) + c(i)) * (b(i) - c(i))", {"a": "d", "b": "d", "c": "d"}),
     ("a(i) = 2", {"a": "d"}),
+    # sparse1 (`sparse1_kernel_correct`): sparse vector copy / scale
+    ("a(i) = b(i)", {"a": "s", "b": "s"}),
+    ("a(i) = 2 * b(i)", {"a": "s", "b": "s"}),
+    ("a(i) = b(i) * 2.5", {"a": "s", "b": "s"}),
+    # dense2 (`dense2_kernel_correct`, `dense2_matvec_kernel_denote`): dense contraction over j
+    ("a(i) = b(i,j) * c(j)", {"a": "d", "b": "dd", "c": "d"}),
+    ("a(i) = b(i,j) * c(j) * d(i)", {"a": "d", "b": "dd", "c": "d", "d": "d"}),
 ]
 
 
